@@ -1217,7 +1217,9 @@ impl CanonicalizeContext {
 					continue;
 				}
 				let attr_name = match child.attribute_value("encoding") {
-					Some(encoding_name) => format!("data-{}-{}", child_name, encoding_name.replace('/', "_slash_")),
+					// the encoding becomes part of an attribute name: '/' is spelled out, any other character that can't be in an XML name becomes '_'
+					Some(encoding_name) => format!("data-{}-{}", child_name, encoding_name.replace('/', "_slash_")
+									.chars().map(|ch| if ch.is_alphanumeric() || ch == '_' || ch == '-' || ch == '.' {ch} else {'_'}).collect::<String>()),
 					None => format!("data-{}", child_name),		// probably shouldn't happen
 				};
 				let attr_name = attr_name.as_str();
